@@ -2,8 +2,9 @@
 commentStmtEx, commentFunc; the cb.comments backup/restore discipline of the compile*Stmt functions;
 cl/compile.go loadFuncBody / lazy function loading).
 
-A  Props/C09.v : C09_directive_maps_first_line (all packages satisfying backward_refs), C09_stmts_anchored,
-   C09_go_line_of_anchored, C09_directive_maps_first_line_refuted (forward reference witness)
+A  Props/C09.v : C09_directive_maps_first_line (all packages whose doc comments are adjacent), C09_stmts_anchored,
+   C09_go_line_of_anchored, C09_tags_exact, C09_every_statement_emitted, C09_compile_total,
+   C09_directive_maps_first_line_refuted_without_guard (block-comment doc of a local declaration)
 B  K-diff, two sided, on generated multi-file packages (one `go build`, one run):
    (shape)    per emitted function, the sequence of //line directives, doc lines and code lines of the Go text
               produced by cl.NewPackage(NoFileLine=false)  ==  the model's `compile_prog` on the statement tree
@@ -23,10 +24,11 @@ CLAIM = {
     "level": "proof",
     "text": "Coq theorem over a model of cl's //line machinery that follows cl/stmt.go statement kind by statement "
             "kind (CodeBuilder.comments set / backed up / restored / reset, statements emitted with the comment held at "
-            "that moment, lazy loading of function bodies on the shared CodeBuilder): for every package whose function "
-            "bodies only refer to earlier-declared functions, every statement's first code line and every function "
-            "header is attributed by Go's //line semantics to its XGo file and line; without that guard the model "
-            "refutes the property (proved witness, reproduced on the implementation as a known finding). The model is "
+            "that moment, lazy loading of function bodies in the middle of the referring statement on the shared "
+            "CodeBuilder): for every package whose doc comments are adjacent to their declarations, every statement's "
+            "first code line and every function header is attributed by Go's //line semantics to its XGo file and line; "
+            "every positioned statement does get such a line (exact, ordered); the model terminates within the stated "
+            "fuel; without the guard the model refutes the property (proved witness = the known finding). The model is "
             "tied to /repo on every run by a structural comparison of the emitted Go text with the model's layout and by "
             "building and running the generated programs once and comparing runtime.Caller positions with the model.",
     "note": "Modelled, not verified: cl/stmt.go, cl/expr.go (function literals, lambdas), cl/compile.go (loadFunc, "
@@ -145,6 +147,11 @@ class Gen:
             if not callable_:
                 return [t + self.mark()]
             f = self.rng.choice(callable_)
+            # the reference to the (possibly not yet loaded) function sits in a statement that also holds a mark
+            if f.endswith("()") and not f.startswith("_ =") and not f.startswith("new("):
+                return [t + "call(%s, %s)" % (self.mark(), f[:-2])]
+            if f.startswith("_ = "):
+                return [t + "_ = %s + %s" % (self.mark(), f[4:])]
             return [t + f]
         if k == "lam":
             return [t + "call1(x => %s)" % self.mark()]
@@ -271,47 +278,54 @@ def gen_package(rng, idx, main=False):
     pkg = "main" if main else "p%d" % idx
     g = Gen(rng, pkg)
     nfiles = 1 if main else 1 + rng.below(2)
-    files = []
-    callable_ = []
-    runcalls = []
+    # plan the functions first: with direction "forward" a body only calls functions declared LATER (their bodies
+    # are then compiled lazily in the middle of the calling statement), with "backward" only earlier ones:
+    # the call graph stays acyclic either way
+    direction = ["backward", "forward"][rng.below(2)]
+    plan = []
     fno = 0
+    for fi in range(nfiles):
+        for _ in range(1 + rng.below(3)):
+            fno += 1
+            kind = rng.below(4)
+            if kind == 0:
+                plan.append((fi, "m%d" % fno, "method", "new(T).m%d()" % fno))
+            elif kind == 1:
+                plan.append((fi, "f%d" % fno, "result", "_ = f%d()" % fno))
+            else:
+                plan.append((fi, "f%d" % fno, "plain", "f%d()" % fno))
+    files = []
+    runcalls = [c for (_, _, _, c) in plan]
     for fi in range(nfiles):
         lines = ["package %s" % pkg, ""]
         if fi == 0:
             lines += ['import "runtime"', ""] + (MARK_SRC % pkg).split("\n")
-        for _ in range(1 + rng.below(3)):
-            fno += 1
+        for k, (pfi, name, kind, call) in enumerate(plan):
+            if pfi != fi:
+                continue
+            others = plan[:k] if direction == "backward" else plan[k + 1:]
+            callable_ = [c for (_, _, kd, c) in others if kd != "method" or direction == "backward"]
             lines += [""] * (1 + rng.below(2))
             lines += g.func_doc()
             depth = 1 + rng.below(3)
-            kind = rng.below(4)
-            if kind == 0:      # method
-                name = "m%d" % fno
+            if kind == "method":
                 lines.append("func (t *T) %s() {" % name)
                 lines += g.body(depth, 1, callable_, 1, 5)
                 lines.append("}")
-                call = "new(T).%s()" % name
-            elif kind == 1:    # function with result
-                name = "f%d" % fno
+            elif kind == "result":
                 lines.append("func %s() int {" % name)
                 lines += g.body(depth, 1, callable_, 1, 5)
                 lines += ["\treturn " + g.mark(), "}"]
-                call = "_ = %s()" % name
-                callable_ = callable_ + [call]
             else:
-                name = "f%d" % fno
                 lines.append("func %s() {" % name)
                 lines += g.body(depth, 1, callable_, 1, 5)
                 lines.append("}")
-                call = "%s()" % name
-                callable_ = callable_ + [call]
-            runcalls.append(call)
         if fi == nfiles - 1:
             lines += [""]
             if main:
                 # shadow entry: top-level statements
                 lines += runcalls
-                lines += g.body(2, 0, callable_, 2, 5)
+                lines += g.body(2, 0, runcalls, 2, 5)
             else:
                 lines += g.func_doc()
                 lines.append("func Run() {")
@@ -320,6 +334,7 @@ def gen_package(rng, idx, main=False):
         name = "main.xgo" if main else ["a.xgo", "b.xgo"][fi]
         files.append({"name": name, "src": "\n".join(lines) + "\n"})
     relbase = ["pkg", "root", "abs"][rng.below(3)]
+    g.hist["calls:" + direction] = 1
     return {"pkg": pkg, "dir": "." if main else pkg, "relbase": relbase, "files": files}, g.hist
 
 
@@ -329,8 +344,8 @@ def gen_package(rng, idx, main=False):
 DET_HEAD = "package %s\n\nimport \"runtime\"\n\n" + MARK_SRC
 
 DET = {
-    # first reference to a function declared later: its body is compiled in the middle of the referencing
-    # statement and leaves ITS last directive (or none) in cb.comments
+    # regression (fixed by /repo 8b20189): the first reference to a function declared later compiles its body in
+    # the middle of the referring statement; it used to leave ITS last directive (or none) in cb.comments
     "fwdref": '''
 func F() {
 	mark(1)
@@ -465,7 +480,7 @@ func Run() {
 ''',
 }
 
-DET_EXPECT_FAIL = {"fwdref", "blockdoc"}
+DET_EXPECT_FAIL = {"blockdoc"}
 
 
 def det_cases():
@@ -529,7 +544,7 @@ def run(ctx):
     cases = det_cases()
     ndet = len(cases)
     hist = {}
-    for i in range(ctx.n(22, 400)):
+    for i in range(ctx.n(16, 400)):
         c, h = gen_package(ctx.rng, i)
         cases.append(c)
         for k, v in h.items():
@@ -587,7 +602,7 @@ def run(ctx):
             nlines += shape_impl[-1].count(",") + 1
             ndirs += shape_impl[-1].count("D")
         if r["pkg"][0] != "d" and m["guards"] != "1":
-            ctx.broken("generator-guard", "seeded package %s does not satisfy backward_refs (generator defect)" % r["pkg"])
+            ctx.broken("generator-guard", "seeded package %s does not satisfy the guards of the theorem (generator defect)" % r["pkg"])
     diffs = ctx.diff_lines("directive layout: emitted Go text ~ compile_prog", shape_cases, "\n".join(shape_impl), "\n".join(shape_model))
     for c, x, y in diffs[:3]:
         pkg = c.split("/")[0]
@@ -696,9 +711,9 @@ def run(ctx):
                    "and one run; evaluations = emitted functions compared structurally (%d, %d text lines, %d directives) + runtime "
                    "positions compared (%d executed marks / function entries, %d of them checked by the direct oracle; %d executed marks "
                    "that are not the first marked call of their text line are not compared); "
-                   "non-trivial = distinct executed mark or function entry. Seeded packages only contain backward "
-                   "references (forward references are the known-finding dimension, explored by the deterministic set); "
-                   "not generated: go statements, `defer mark(k)` (the runtime attributes a deferred call to the function's return point), goto, init functions, grouped declarations, package-level initialisers with calls"
+                   "non-trivial = distinct executed mark or function entry. Seeded packages call earlier-declared or "
+                   "later-declared functions (lazy loading inside the calling statement); block-comment docs of local "
+                   "declarations are the known-finding dimension (deterministic set only); not generated: go statements, `defer mark(k)` (the runtime attributes a deferred call to the function's return point), goto, init functions, grouped declarations, package-level initialisers with calls"
                    % (ndet, len(cases) - ndet - 1, len(shape_cases), nlines, ndirs, len(rt_cases), nfirst, nsecond),
               generator_template_histogram=dict(sorted(hist.items())), statement_kind_histogram=dict(sorted(stmt_hist.items())),
               harness_status=status_hist)
